@@ -41,6 +41,11 @@ def state_delta(e, p=None):
         if cands and len(cands) == 1:
             fields = dict(base[2])
             base = list(cands)[0]
+        elif e.old is not None and p is not None and any(c[0] == e.old and c[1] == "None" for c in p.conds):
+            # rebuilt on the path that found no entry: every field starts from the default (zero)
+            out0 = {f: nf(v) for f, v in base[2] if f in ("outstanding", "total_sent")}
+            if all(not n.inexact for n in out0.values()):
+                return out0["outstanding"], out0["total_sent"], "or-default"
     if base == ("vfield", e.old, "Some", "0"):
         kind = "present"
     elif base == ("unwrap_or", e.old, ("default", "?")) or \
